@@ -31,6 +31,7 @@ import os, sys, time, itertools, random, multiprocessing
 
 from common import *          # mx, Result, reset, main
 import c02_worlds as W
+import c02_handled              # noqa: F401  appends the world "caught-failure" to W.WORLDS
 
 N = "n"; F = "f"; R = "r"       # evaluation specs for one gap; an int = that single query
 
